@@ -63,6 +63,22 @@ def res_oracle(box, expected):
     return oracle
 
 
+def ellipsis_singleton_cases(cases, rng):
+    """directed: an Ellipsis (leading, trailing, bare) covering modes of size 1 — those modes stay in the result, only integer-indexed modes go"""
+    for N in ([3, 1, 4], [4, 1], [1], [2, 1, 1, 3], [1, 3, 1], [1, 1]):
+        d = len(N)
+        x = rand_tt(rng, N, rand_ranks(rng, d, 3), tn.float64)
+        dx = dense_of(x)
+        idxs = [(Ellipsis,), (0, Ellipsis), (slice(0, 1), Ellipsis), (None, Ellipsis), (Ellipsis, 0), (Ellipsis, slice(None)), (Ellipsis, None),
+                (N[0] - 1, Ellipsis), (slice(None), Ellipsis)]
+        if d >= 2:
+            idxs += [(0, 0, Ellipsis), (Ellipsis, 0, 0), (slice(None), 0, Ellipsis) if N[1] >= 1 else (0, Ellipsis)]
+        for index in idxs:
+            box, impl = boxed(lambda x=x, index=index: x[index])
+            cases.append(Case(None, impl, res_oracle(box, lambda dx=dx, index=index: dx[index]), "getitem/ellipsis-over-singleton/d%d" % d, True,
+                              desc="N=%s index=%s" % (N, str(index).replace("Ellipsis", "..."))))
+
+
 def one(cases, rng, tier, d, rep, dtname):
     dt = DTYPES[dtname]
     N = rand_modes(rng, d, 1 if rep % 2 == 0 else 2, 4)
@@ -237,6 +253,7 @@ def run(res, rng, tier, known):
             return None if bad.numel() == 0 else "apply_mask with %d rows: %d entries differ from dense indexing, first bad row %d" % (itb.shape[0], bad.shape[0], int(bad[0]))
         cases.append(Case(None, implb, orcb, "apply_mask/many-rows", True, desc="apply_mask N=%s R=%s rows=%d" % (Nb, Rb, rows)))
     rng.shuffle(cases)
+    ellipsis_singleton_cases(cases, rng)
     run_cases(res, cases, known)
     return {"level": LEVEL, "rule": RULE, "assumptions": ASSUMPTIONS,
             "not_by_theorem": ["python-level normalisation of negative ints / slices (done by torch, trusted)", "Ellipsis in the middle of an index (not claimed by the property)"]}
